@@ -181,6 +181,34 @@ def real(case):
             out["canwrite"] = bool(can_write_pdb(df))
         except Exception as e:  # noqa: BLE001
             out["canwrite"] = "err %s" % exc_name(e)
+        if case.get("refit"):
+            # the table handed to fit_to_pdb is itself the RESULT of an earlier fit that was edited afterwards
+            try:
+                first = fit_to_pdb(df)
+                ed = case["refit"]
+                first = first.copy()
+                fmt0 = df.attrs.get("format")
+                col = {"chain": "chainID", "resSeq": "resSeq"}[ed["what"]] if "chainID" in first.columns else \
+                    {"chain": "auth_asym_id", "resSeq": "auth_seq_id"}[ed["what"]]
+                if ed["what"] == "chain":
+                    first[col] = [str(c) + "2" for c in first[col]]
+                else:
+                    first[col] = [int(v) + 12000 for v in first[col]]
+                if not first.attrs.get("format"):
+                    first.attrs["format"] = fmt0
+                df = first
+                rows = g4.rows_of(df)
+                out["n"] = len(rows)
+                out["wire_ok"] = all(g4.wire_ok(r) for r in rows)
+                out["rows"] = rows if len(rows) <= 3000 else None
+                out["counts"] = counts(rows)
+                out["fmt"] = df.attrs.get("format")
+                try:
+                    out["canwrite"] = bool(can_write_pdb(df))
+                except Exception as e:  # noqa: BLE001
+                    out["canwrite"] = "err %s" % exc_name(e)
+            except Exception as e:  # noqa: BLE001
+                return {"skip": "refit-setup:" + exc_name(e)}
         try:
             df2 = fit_to_pdb(df)
         except Exception as e:  # noqa: BLE001
@@ -269,6 +297,9 @@ def build_cases(ctx):
         else:
             ed = {"what": "serial", "value": 100000}
         cases.append({"source": "gen", "format": "PDB", "rows": rows, "edit": ed, "family": "pdb-derived-edited"})
+        if i % 3 == 0:
+            cases.append({"source": "gen", "format": "PDB", "rows": rows, "edit": ed, "refit": {"what": rng.choice(["chain", "resSeq"])},
+                          "family": "fitted-edited-refitted"})
     # hand-made minimal shapes
     base = {"record": "ATOM", "serial": 1, "name": "P", "altLoc": "", "resName": "G", "chain": "AA", "resSeq": 1, "iCode": "",
             "x": 1000, "y": -2000, "z": 3, "occ": 100, "b": 2050, "element": "P", "charge": "", "model": 1}
@@ -386,6 +417,8 @@ def run(ctx):
     judge(ctx, res, cases, outs)
     res.notes.append("model + judge %.1fs" % (time.time() - t0))
     __import__("corr.c10_tools", fromlist=["run_tools"]).run_tools(ctx, res)   # unifier.main (wpOPS)
+    # splitter.main, the other tool C10 names as an observation point (families of corr/c09.py that need fitting)
+    c09.run_splitter(ctx, res, only_fit=True)
     for case, o in list(zip(cases, outs))[:2] + list(zip(cases, outs))[-2:]:
         res.sample({"family": case["family"], "rows": o["n"], "counts(rows,chains,max residues,chain changes)": o["counts"],
                     "outcome": o["fit"][:2], "canwrite": o["canwrite"]})
